@@ -26,12 +26,15 @@ CONSTANTS MaxEdits, Dev,
                        \* "dir":  shared symmetric key is the CEK ; "agree": direct key agreement (ECDH-ES, ECDH-1PU)
           TagBound     \* TRUE for ECDH-1PU key wrapping: the KEK also depends on the content tag
 DevNames == {"AadFromParsedHeader", "TagPrefixCompared", "IvSizeUnchecked", "NonEmptyEkAccepted", "MultipleCekIgnored",
-             "ErrorsAlwaysSwallowed", "NoRecipientOk"}
+             "ErrorsAlwaysSwallowed", "NoRecipientOk", "EmptyAadReparsed"}
 ASSUME Dev \subseteq DevNames
 
 Sers == {"compact", "flattened", "general"}
 Hs == {"H1", "H2", "R1", "X"}                     \* R1: other JSON spelling of H1 (same members); X: altered octets
-Aads == {"none", "A1", "A2", "AX"}
+\* A0: the "aad" member present but empty.  The AAD octets are then the same as without the member (joserfc takes the two for
+\* the same thing when producing and when consuming), so on a token made without AAD it changes nothing that is authenticated
+Aads == {"none", "A1", "A2", "AX", "A0"}
+AadNorm(a) == IF a = "A0" THEN "none" ELSE a
 Ivs == {"IV1", "IV2", "IVX", "IVshort", "IVlong"}
 Cts == {"C1", "C2", "CX"}
 Tags == {"T1", "T2", "TX", "Tshort", "Tlong"}
@@ -117,10 +120,11 @@ Recipient ==
 TokCek(i) == IF Mode = "dir" THEN "CEKshared" ELSE IF i = 1 THEN "CEK1" ELSE "CEK2"
 HMatch(i) == \/ wire.h = (IF i = 1 THEN "H1" ELSE "H2")
              \/ (i = 1 /\ wire.h = "R1" /\ "AadFromParsedHeader" \in Dev)
+             \/ (i = 1 /\ wire.h = "R1" /\ wire.aad = "A0" /\ "EmptyAadReparsed" \in Dev)
 TagMatch(i) == \/ wire.tag = (IF i = 1 THEN "T1" ELSE "T2")
                \/ (i = 1 /\ wire.tag = "Tshort" /\ "TagPrefixCompared" \in Dev)
 AeadOpensW(cek, i) ==
-  /\ cek = TokCek(i) /\ HMatch(i) /\ TagMatch(i) /\ wire.aad = AadOfTok(i)
+  /\ cek = TokCek(i) /\ HMatch(i) /\ TagMatch(i) /\ AadNorm(wire.aad) = AadOfTok(i)
   /\ wire.iv = (IF i = 1 THEN "IV1" ELSE "IV2") /\ wire.ct = (IF i = 1 THEN "C1" ELSE "C2")
 
 Conclude ==
@@ -144,7 +148,7 @@ Spec == Init /\ [][Next]_vars
 Authentic(i) ==
   /\ wire.h = (IF i = 1 THEN "H1" ELSE "H2") /\ wire.iv = (IF i = 1 THEN "IV1" ELSE "IV2")
   /\ wire.ct = (IF i = 1 THEN "C1" ELSE "C2") /\ wire.tag = (IF i = 1 THEN "T1" ELSE "T2")
-  /\ wire.aad = AadOfTok(i)
+  /\ AadNorm(wire.aad) = AadOfTok(i)
 AuthPlain ==
   phase = "done" /\ verdict = "ok" =>
     /\ key = "R1"
